@@ -17,6 +17,9 @@ volatile int verif_ctx_saved[4];
 volatile int verif_wake[4];
 volatile int verif_started[4];
 volatile int verif_nrun[4];
+volatile int verif_go[4]; volatile int verif_rq[4]; volatile int verif_env_of[4]; volatile int verif_env_busy[4];
+volatile int verif_handoff_env[4]; volatile int verif_entry_kind[4]; volatile int verif_on_own_stack[4];
+void *verif_spawn_a1[4], *verif_spawn_a2[4], *verif_spawn_a3[4];
 
 #if VN == 2
 static inline struct myth_thread *verif_td(int k){ return k == 0 ? &TD0 : &TD1; }
@@ -74,7 +77,7 @@ static inline void verif_switch_to(myth_context_t to, int me){
   }
 }
 static inline void verif_after_resume(int me){
-  verif_wake[me] = 0; verif_ctx_saved[me] = 0;
+  verif_wake[me] = 0; verif_ctx_saved[me] = 0; verif_on_own_stack[me] = 1;
   /* branch on the index: never write through a pointer selected by a symbolic chain (DESIGN 2.3) */
   if (me == 0) { EV0.this_thread = &TD0; TD0.env = &EV0; }
 #if VN == 2
@@ -89,7 +92,7 @@ static inline void verif_after_resume(int me){
 #endif
 }
 static inline int verif_is_create_cb(void *fn){ (void)fn; return 0; }
-static inline void verif_spawn(myth_context_t to, void *a1, void *a2, void *a3){ (void)to; (void)a1; (void)a2; (void)a3; }
+static inline void verif_spawn(myth_context_t to, int me, void *a1, void *a2, void *a3){ (void)to; (void)me; (void)a1; (void)a2; (void)a3; }
 static inline void verif_model_init(void){
   EV0.rank = 0; EV0.this_thread = &TD0; TD0.env = &EV0;
   EV1.rank = 1; EV1.this_thread = &TD1; TD1.env = &EV1;
@@ -99,6 +102,138 @@ static inline void verif_model_init(void){
 #if VN > 3
   EV3.rank = 3; EV3.this_thread = &TD3; TD3.env = &EV3;
 #endif
+}
+#else   /* ------------------------------------------------------------------ VERIF_RICH */
+static inline int verif_env_index(void *q){
+  return q == (void*)&EV0.runnable_q ? 0 : q == (void*)&EV1.runnable_q ? 1 :
+#if VN > 2
+         q == (void*)&EV2.runnable_q ? 2 :
+#endif
+#if VN > 3
+         q == (void*)&EV3.runnable_q ? 3 :
+#endif
+         -1;
+}
+static inline int verif_env_of_sched_ctx(myth_context_t c){
+  return c == &EV0.sched.context ? 0 : c == &EV1.sched.context ? 1 :
+#if VN > 2
+         c == &EV2.sched.context ? 2 :
+#endif
+#if VN > 3
+         c == &EV3.sched.context ? 3 :
+#endif
+         -1;
+}
+myth_running_env_t verif_env_of_tid(int t){ return verif_ev(verif_env_of[t]); }
+static inline void verif_make_runnable(void *q, struct myth_thread *th){
+  int k = verif_tid_of_th(th); int e = verif_env_index(q);
+  verif_check(k >= 0 && k < VN && e >= 0, "model: only thread descriptors are made runnable, on a worker's own queue");
+  verif_check(verif_ctx_saved[k], "a thread is made runnable only after its context has been saved");
+  verif_check(!verif_wake[k], "a thread is made runnable at most once per suspension (no double resume)");
+  verif_wake[k] = 1; verif_rq[k] = e; verif_nrun[k]++; verif_go[k] = 1;
+}
+/* owner-side pop: nondeterministically nothing (already stolen / empty) or one of the threads queued on this worker */
+static inline struct myth_thread *verif_pop(void *q){
+  int e = verif_env_index(q); long c = nondet_long();
+#define VERIF_POP_CAND(k) if (c == k && verif_wake[k] == 1 && verif_rq[k] == e) { verif_wake[k] = 3; verif_go[k] = 0; return verif_td(k); }   /* popped: only the popper may switch to it */
+  VERIF_POP_CAND(0) VERIF_POP_CAND(1)
+#if VN > 2
+  VERIF_POP_CAND(2)
+#endif
+#if VN > 3
+  VERIF_POP_CAND(3)
+#endif
+  return 0;
+}
+static inline void verif_switch_to(myth_context_t to, int me){
+  int k = verif_tid_of_ctx(to); int e = verif_env_of[me];
+  if (k >= 0) {   /* the worker is handed directly to thread k */
+    verif_check(verif_ctx_saved[k], "a context is resumed only after it has been saved");
+    verif_check(verif_wake[k] == 3 || verif_wake[k] == 0, "a context is resumed at most once per suspension (no double resume)");
+    verif_check(!verif_done(k), "a finished thread is never resumed");
+    if (verif_wake[k] == 0) verif_nrun[k]++;
+    verif_handoff_env[k] = e; verif_wake[k] = 2; verif_go[k] = 1;
+  } else {        /* back to this worker's scheduler: the worker becomes idle */
+    verif_check(verif_env_of_sched_ctx(to) == e, "model: a thread switches to the scheduler context of the worker it runs on");
+    verif_env_busy[e] = 0;
+  }
+  verif_env_of[me] = -1;
+}
+static inline void verif_take_env(int me, int e){
+  verif_env_of[me] = e; verif_env_busy[e] = 1;
+}
+static inline void verif_after_resume(int me){
+  int e;
+  if (verif_wake[me] == 2) e = verif_handoff_env[me];
+  else {          /* stolen (or picked by the idle owner): runs on the lowest-numbered idle worker, set up as myth_sched_loop does */
+    e = !verif_env_busy[0] ? 0 : !verif_env_busy[1] ? 1 :
+#if VN > 2
+        !verif_env_busy[2] ? 2 :
+#endif
+        VN - 1;
+    verif_check(!verif_env_busy[e], "model: an idle worker exists for every runnable thread");
+    if (e == 0) { EV0.this_thread = verif_td(me); } else if (e == 1) { EV1.this_thread = verif_td(me); }
+#if VN > 2
+    else if (e == 2) { EV2.this_thread = verif_td(me); }
+#endif
+#if VN > 3
+    else { EV3.this_thread = verif_td(me); }
+#endif
+    if (me == 0) TD0.env = verif_ev(e); else if (me == 1) TD1.env = verif_ev(e);
+#if VN > 2
+    else if (me == 2) TD2.env = verif_ev(e);
+#endif
+#if VN > 3
+    else TD3.env = verif_ev(e);
+#endif
+  }
+  verif_wake[me] = 0; verif_go[me] = 0; verif_ctx_saved[me] = 0; verif_on_own_stack[me] = 1;
+  verif_take_env(me, e);
+}
+static void myth_entry_point(void);
+static inline void myth_make_context_empty(myth_context_t ctx, void *stack, size_t stacksize){
+  int k = verif_tid_of_ctx(ctx); (void)stack; (void)stacksize;
+  verif_check(k >= 0 && !verif_started[k] && stack != 0, "model: a fresh context is made for a thread that has not started, on a real stack");
+  verif_entry_kind[k] = 1; verif_ctx_saved[k] = 1;
+}
+static inline void myth_make_context_voidcall(myth_context_t ctx, void_func_t func, void *stack, size_t stacksize){
+  int k = verif_tid_of_ctx(ctx); (void)stacksize;
+  verif_check(k >= 0 && !verif_started[k] && stack != 0, "model: a fresh context is made for a thread that has not started, on a real stack");
+  verif_check(func == myth_entry_point, "model: parent-first threads start in myth_entry_point");
+  verif_entry_kind[k] = 2; verif_ctx_saved[k] = 1;
+}
+static inline int verif_is_create_cb(void *fn){ return fn == (void*)myth_create_1; }
+/* child-first creation: the fresh child context takes over the creator's worker and runs the real myth_create_1 */
+static inline void verif_spawn(myth_context_t to, int me, void *a1, void *a2, void *a3){
+  int c = verif_tid_of_ctx(to); int e = verif_env_of[me];
+  verif_check(c >= 0 && c < VN && verif_entry_kind[c] == 1 && !verif_started[c], "model: child-first creation switches to a fresh context");
+  verif_spawn_a1[c] = a1; verif_spawn_a2[c] = a2; verif_spawn_a3[c] = a3;
+  verif_started[c] = 1; verif_handoff_env[c] = e; verif_wake[c] = 2; verif_go[c] = 1;
+  verif_env_of[me] = -1;
+}
+/* body of a child logical thread */
+static inline void verif_child_main(int k){
+  verif_park(&verif_go[k]);
+  if (verif_entry_kind[k] == 1) {
+    verif_wake[k] = 0; verif_go[k] = 0; verif_on_own_stack[k] = 1; verif_take_env(k, verif_handoff_env[k]);
+    myth_create_1(verif_spawn_a1[k], verif_spawn_a2[k], verif_spawn_a3[k]);
+  } else {
+    verif_started[k] = 1;
+    verif_after_resume(k);
+    myth_entry_point();
+  }
+}
+static inline void verif_model_init(void){
+  EV0.rank = 0; EV1.rank = 1;
+#if VN > 2
+  EV2.rank = 2;
+#endif
+#if VN > 3
+  EV3.rank = 3;
+#endif
+  verif_env_of[1] = -1; verif_env_of[2] = -1; verif_env_of[3] = -1;
+  /* logical thread 0 is the running root thread on worker 0 */
+  EV0.this_thread = &TD0; TD0.env = &EV0; verif_env_of[0] = 0; verif_env_busy[0] = 1; verif_on_own_stack[0] = 1; verif_started[0] = 1;
 }
 #endif
 #endif
